@@ -1,6 +1,6 @@
 (* C19: property theorems (statements in full; proofs in Proofs*.v). *)
 From Coq Require Import List NArith ZArith Bool.
-From C19 Require Import Gen Model Spec ProofsPtr ProofsPatch ProofsParse ProofsNum RTNum ProofsDouble RTStr RTDefs RTFinal.
+From C19 Require Import Gen Model Spec ProofsPtr ProofsPatch ProofsPatchExact ProofsParse ProofsNum RTNum ProofsDouble RTStr RTDefs RTMain RTFinal ProofsPatchDoc.
 Import ListNotations.
 Local Open Scope N_scope.
 
@@ -12,7 +12,7 @@ Theorem c19_total :
   forall text : list N,
     ((exists e, parse_text text = PErr e) \/ (exists v, parse_text text = POk v [])) /\
     parse_text text <> PFuel /\ parse_text text <> PDeep.
-Proof. intro text. split; [exact (parse_text_total text) | exact (parse_text_no_hazard text)]. Qed.
+Proof. intro text. split; [exact (parse_text_total put_std text) | exact (parse_text_no_hazard put_std text)]. Qed.
 Print Assumptions c19_total.
 
 (* The budget/depth invariant behind it, for the three mutually recursive lexer functions at any
@@ -24,7 +24,7 @@ Theorem c19_total_inner :
     good (parse_elems fuel d l acc) (length l) /\
     good (parse_members fuel d l accm) (length l).
 Proof.
-  intros fuel d l acc accm Hd Hf. destruct (parse_total_aux fuel) as [Hv [He Hm]].
+  intros fuel d l acc accm Hd Hf. destruct (parse_total_aux put_std fuel) as [Hv [He Hm]].
   repeat split; try apply Hv; try apply He; try apply Hm; auto; Lia.lia.
 Qed.
 Print Assumptions c19_total_inner.
@@ -87,7 +87,7 @@ Theorem c19_total_double :
            (-2147483648 <= ex < 2147483648)%Z
        | _ => True
        end).
-Proof. exact total_double. Qed.
+Proof. exact (total_double put_std). Qed.
 Print Assumptions c19_total_double.
 Example c19_double_huge_exponent :
   parse_text [50; 53; 101; 49; 50; 51; 52; 53; 54; 55; 56; 57; 48; 49; 50; 51; 52; 53] =
@@ -111,7 +111,7 @@ Theorem c19_roundtrip :
     parse_text (write cx_parsed 0 v) = POk (canon v) [] /\
     jv_eqb v (canon v) = true /\
     write cx_parsed 0 (canon v) = write cx_parsed 0 v.
-Proof. exact roundtrip. Qed.
+Proof. exact (roundtrip put_std put_std_ok). Qed.
 Print Assumptions c19_roundtrip.
 
 (* The same inside any context: at any nesting level d and indentation, followed by anything the
@@ -121,7 +121,7 @@ Theorem c19_roundtrip_inner :
     wfb k v = true -> N.of_nat k + d <= MAX_DEPTH -> follow rest ->
     (2 * length (write cx_parsed ind v ++ rest) + 1 <= fuel)%nat ->
     parse_value fuel d (write cx_parsed ind v ++ rest) = POk (canon v) rest.
-Proof. intros v k d ind rest fuel H1 H2 H3 H4. exact (rt_all v k d ind rest fuel H1 H2 H3 H4). Qed.
+Proof. intros v k d ind rest fuel H1 H2 H3 H4. exact (rt_all put_std put_std_ok v k d ind rest fuel H1 H2 H3 H4). Qed.
 Print Assumptions c19_roundtrip_inner.
 
 (* With a non-canonical IsComplexType() flag (here: an array appended through Append(JsonValue* ),
@@ -150,6 +150,74 @@ Example c19_roundtrip_guard_sat :
                   ([97], JStr [34; 92; 47; 32; 126]);
                   ([97; 98], JArr [JObj []; JArr []; JBool true; JNull])].
 Proof. vm_compute. split; reflexivity. Qed.
+
+(* ---- JsonPatchParser: from the TEXT of a JSON Patch document to the operations applied ---- *)
+(* A well-formed patch document yields exactly its operation list: for every list of operations
+   (ProofsPatchDoc.dop: add/remove/replace/move/copy/test with printable path strings - valid or
+   not - and values inside the round-trip guard, nesting <= MAX_DEPTH-2), JsonPatchParser::Parse of
+   the document as JsonWriter writes it succeeds with the list [op_of]: same order, pointers parsed
+   from the path strings, values as the parser classifies them. *)
+Theorem c19_patchdoc_wellformed :
+  forall ops : list dop,
+    forallb (dop_ok (N.to_nat MAX_DEPTH - 2)) ops = true ->
+    patch_parse_text (write cx_parsed 0 (patch_doc ops)) = PPOk (map op_of ops).
+Proof. exact patchdoc_wellformed. Qed.
+Print Assumptions c19_patchdoc_wellformed.
+
+(* A malformed document is rejected: whenever Parse accepts ANY text, the text is JSON whose
+   top-level value is an array, every element is an object that (after its members are processed
+   in document order, later duplicates overriding) has a string "path", a recognised "op" and the
+   "value"/"from" that op requires, and the accepted list is built from exactly those. *)
+Theorem c19_patchdoc_accept_only_wellformed :
+  forall (text : list N) (ops : list pop),
+    patch_parse_text text = PPOk ops ->
+    exists elems rest, parse_text_g put_patch text = POk (JArr elems) rest /\
+                       Forall2 elem_wellformed elems ops.
+Proof. exact patchdoc_accept_inv. Qed.
+Print Assumptions c19_patchdoc_accept_only_wellformed.
+
+(* Parsing a patch text is total, and applying a patch given as text is atomic: if the text is
+   rejected, or any operation fails, the target document is unchanged; if it is accepted the result
+   is JsonData::Apply of the parsed list (hence c19_patch_atomic / c19_patch_rfc_partial apply). *)
+Theorem c19_patchdoc_atomic :
+  forall (text : list N) (d : doc),
+    patch_parse_text text <> PPHaz /\
+    (fst (patch_apply_text text d) = false -> snd (patch_apply_text text d) = d) /\
+    (forall ops, patch_parse_text text = PPOk ops -> patch_apply_text text d = data_apply ops d) /\
+    ((forall ops, patch_parse_text text <> PPOk ops) -> patch_apply_text text d = (false, d)).
+Proof. intros text d. split; [apply patch_parse_total|apply patch_apply_text_atomic]. Qed.
+Print Assumptions c19_patchdoc_atomic.
+
+(* Totality of the lexer for ANY way of storing object members (JsonParser's and JsonPatchParser's). *)
+Theorem c19_total_any_handler :
+  forall (put : N -> list N -> jv -> list (list N * jv) -> list (list N * jv)) (text : list N),
+    ((exists e, parse_text_g put text = PErr e) \/ (exists v, parse_text_g put text = POk v [])) /\
+    parse_text_g put text <> PFuel /\ parse_text_g put text <> PDeep.
+Proof. intros put text. split; [exact (parse_text_total put text) | exact (parse_text_no_hazard put text)]. Qed.
+Print Assumptions c19_total_any_handler.
+
+Example c19_patchdoc_example :
+  (* [{"op":"move","from":"/a~1b","path":"/c/-"},{"op":"test","path":"","value":[1,-1]}] in any member order *)
+  let ops := [DMove [47;97;126;49;98] [47;99;47;45]; DTest [] (JArr [JInt 1; JInt (-1)])] in
+  forallb (dop_ok (N.to_nat MAX_DEPTH - 2)) ops = true /\
+  map op_of ops = [PMove (Some [[97;47;98]]) (Some [[99];[45]]); PTest (Some []) (JArr [JUInt 1; JInt (-1)])].
+Proof. vm_compute. split; reflexivity. Qed.
+Example c19_patchdoc_duplicate_and_order :
+  (* {"value":1,"op":"remove","op":"add","path":"/x"}: the later "op" wins, members in any order *)
+  elem_op (JObj [(K_VALUE, JUInt 1); (K_OP, JStr S_REMOVE); (K_OP, JStr S_ADD); (K_PATH, JStr [47;120])])
+  = inl (PAdd (Some [[120]]) (JUInt 1)).
+Proof. reflexivity. Qed.
+
+(* ---- pointer clause: the corner cases as explicit instances ---- *)
+Example c19_pointer_corner_cases :
+  ptr_parse (ptr_to_string []) = Some [] /\                              (* "" : the whole document *)
+  ptr_to_string [[]] = [47] /\ ptr_parse [47] = Some [[]] /\             (* "/" : one empty token *)
+  ptr_to_string [[97]; []] = [47;97;47] /\ ptr_parse [47;97;47] = Some [[97]; []] /\  (* "/a/" : trailing empty token *)
+  ptr_parse [47;47] = Some [[]; []] /\                                    (* "//" *)
+  ptr_to_string [[126]; [47]; [126;49]; [126;48;49]] = [47;126;48;47;126;49;47;126;48;49;47;126;48;48;49] /\
+  ptr_parse [47;126;48;47;126;49;47;126;48;49;47;126;48;48;49] = Some [[126]; [47]; [126;49]; [126;48;49]] /\
+  ptr_parse [97] = None.                                                   (* no leading '/' *)
+Proof. vm_compute. repeat split. Qed.
 
 (* JSON Pointers round-trip through their string form, for EVERY token sequence (tokens are
    arbitrary byte strings, including '~', '/', "~0", "~1", empty tokens). *)
@@ -202,6 +270,18 @@ Theorem c19_patch_rfc_partial :
     quirk_free ops d = true -> data_apply ops d = rfc_patch ops d.
 Proof. exact patch_rfc_partial. Qed.
 Print Assumptions c19_patch_rfc_partial.
+
+(* The guard is EXACT, step by step: an operation gives the RFC 6902 result if and only if it is not
+   one of the recorded departures (Spec.quirk_kind = 0) - so any other departure of the code from the
+   RFC would break c19_patch_rfc_partial, and every flagged step really differs.  The only exception
+   is the documented coincidence of a copy with from = path that resolves (Spec.copy_coincidence:
+   the library succeeds without evaluating; the RFC result can be the same document). *)
+Theorem c19_patch_guard_exact :
+  forall (o : pop) (d : doc),
+    copy_coincidence o d = false ->
+    (apply_op o d = rfc_op o d <-> quirk_kind o d = 0).
+Proof. exact quirk_exact. Qed.
+Print Assumptions c19_patch_guard_exact.
 
 (* Without the guard the statement is false (known finding C19-patch-dash-last-element). *)
 Theorem c19_patch_rfc_refuted : exists ops d, data_apply ops d <> rfc_patch ops d.
